@@ -15,7 +15,8 @@
 (***************************************************************************)
 EXTENDS Naturals, Integers, Sequences, FiniteSets, TLC
 
-(* schema: A{k key, s, t}   B:A {u}   X{k key, s} ; "Z" is not a class     *)
+(* schema: A{k key, s, t}   B:A {u[]}   X{k key, s} ; "Z" is not a class   *)
+(* s: string, t: uint16, u: string ARRAY                                    *)
 Classes == {"A", "B", "X"}
 Exposed(c) == CASE c = "A" -> {"s", "t"} [] c = "B" -> {"s", "t", "u"}
                 [] c = "X" -> {"s"} [] OTHER -> {}
@@ -48,11 +49,42 @@ Norm(c, p, v) == IF p \notin Exposed(c) THEN "na"
 
 InitState == [store |-> {}]
 
+(*----------------- type-related attributes of properties ------------------*)
+(* Declared shape of the non-key properties and the universe of supplied    *)
+(* shapes <property, CIM type, scalar/array, value/NULL>.  A supplied       *)
+(* property conforms iff its CIM type AND its array-ness equal the          *)
+(* declaration (both directions: array for scalar, scalar for array; the    *)
+(* value being NULL makes no difference).  The tokens of the non-conforming *)
+(* shapes are the "bad property" classes of the calls.                      *)
+DeclType(p) == IF p = "t" THEN "uint16" ELSE "string"
+DeclArr(p) == p = "u"
+Shapes == [on : {"s", "u"}, ty : {"string", "uint8"}, arr : {"sc", "ar"},
+           nul : {"val", "null"}]
+ShapeTok(sh) == sh.on \o "_" \o sh.ty \o "_" \o sh.arr \o "_" \o sh.nul
+ShapeConforms(sh) == sh.ty = DeclType(sh.on) /\ ((sh.arr = "ar") <=> DeclArr(sh.on))
+BadShapes == {sh \in Shapes : ~ShapeConforms(sh)}
+BadToks == {ShapeTok(sh) : sh \in BadShapes} \cup {"undeclared"}
+(* the supplied instance has a property that is not declared by / does not  *)
+(* conform to the creation class c                                          *)
+ShapeByTok ==        \* constant-level table (evaluated once by TLC)
+  [tok \in {ShapeTok(sh) : sh \in Shapes} |->
+     CHOOSE sh \in Shapes : ShapeTok(sh) = tok]
+BadProp(c, tok) ==
+  \/ tok = "undeclared"
+  \/ /\ tok \in DOMAIN ShapeByTok
+     /\ LET sh == ShapeByTok[tok] IN
+          sh.on \notin Exposed(c) \/ ~ShapeConforms(sh)
+
 Known(e) == e.ns \in LiveNs /\ e.cls \in Classes
+CallWellFormed(e) == e.badprop \in BadToks \cup {"none"} /\
+                     (e.op = "Modify" \/ e.icls = e.cls)
 Given(e) == {p \in Rng(Props) : ValOf(e.vals, p) # "unset"}
 Undeclared(e) == e.cls \in Classes /\ \E p \in Given(e) : p \notin Exposed(e.cls)
+(* "k" in a PropertyList stands for the (names of the) key properties,      *)
+(* which every class of the schema exposes                                  *)
 PlistUndeclared(e) == e.hasplist /\ e.cls \in Classes /\
-                      \E p \in Rng(e.plist) : p \notin Exposed(e.cls)
+                      \E p \in Rng(e.plist) : p \notin Exposed(e.cls) \cup {"k"}
+KeyListed(e) == e.hasplist /\ "k" \in Rng(e.plist)
 
 Common(e) == C(e.ns \notin LiveNs, E_INVALID_NAMESPACE)
              \cup C(e.cls \notin Classes, E_INVALID_CLASS)
@@ -66,7 +98,7 @@ Outcome(op, must, may, e) ==
 CreateMust(s, e) ==
   Common(e)
   \cup C(Known(e) /\ e.k = 0, E_INVALID_PARAMETER)            \* key missing
-  \cup C(e.badprop # "none" \/ Undeclared(e), E_INVALID_PARAMETER)
+  \cup C(BadProp(e.cls, e.badprop) \/ Undeclared(e), E_INVALID_PARAMETER)
   \cup C(Known(e) /\ Find(s.store, e.ns, e.cls, e.k) # {}, E_ALREADY_EXISTS)
 
 NewRow(e) == Row(e.ns, e.cls, e.k, Norm(e.cls, "s", e.vals.s),
@@ -83,15 +115,30 @@ CreateApply(s, e) ==
 
 (*--------------------------- ModifyInstance ------------------------------*)
 Target(s, e) == Find(s.store, e.ns, e.cls, e.k)
+(* e.cls is the class named by the instance path, e.icls the class named   *)
+(* by the ModifiedInstance itself.  Both "must specify the same class name" *)
+(* (compared as CIM names, i.e. abstractly); really different classes are   *)
+(* an invalid parameter                                                     *)
+ClsMismatch(e) == e.icls # e.cls
 ModifyMust(s, e) ==
   Common(e)
+  \cup C(e.icls \notin Classes, E_INVALID_CLASS)
+  \cup C(ClsMismatch(e), E_INVALID_PARAMETER)
   \cup C(Known(e) /\ Target(s, e) = {}, E_NOT_FOUND)
-  \cup C(e.badprop # "none" \/ Undeclared(e) \/ PlistUndeclared(e),
+  \cup C(BadProp(e.cls, e.badprop) \/ Undeclared(e) \/ PlistUndeclared(e),
          E_INVALID_PARAMETER)
   \* a changed key property is refused; when a PropertyList excludes the key
   \* the statement is silent => "may"
-  \cup C(e.kprop \notin {0, e.k} /\ ~e.hasplist, E_INVALID_PARAMETER)
-ModifyMay(s, e) == C(e.kprop \notin {0, e.k} /\ e.hasplist, E_INVALID_PARAMETER)
+  \cup C(e.kprop \notin {0, e.k} /\ (~e.hasplist \/ KeyListed(e)),
+         E_INVALID_PARAMETER)
+(* a PropertyList that names a key property which the ModifiedInstance does *)
+(* not supply designates the key to be set to its class default (NULL):     *)
+(* refusing that as a key change or leaving the key alone are both          *)
+(* admissible (statement silent); any other outcome (e.g. a Python          *)
+(* exception) is not                                                        *)
+ModifyMay(s, e) ==
+  C(e.kprop \notin {0, e.k} /\ e.hasplist /\ ~KeyListed(e), E_INVALID_PARAMETER)
+  \cup C(e.kprop = 0 /\ KeyListed(e), E_INVALID_PARAMETER)
 
 (* admissible new value of property p of the target row *)
 NewVals(old, e, p) ==
@@ -193,6 +240,7 @@ Fails(s, e) ==
      [] e.op = "EnumNames" -> EnumNamesFails(s, e)
      [] OTHER -> {"UnknownOperation"})
   \cup DumpFails(s, e)
+  \cup F("UnknownCallClass", CallWellFormed(e))
 
 KeyUnique(s) == \A r1, r2 \in s.store : KeyOf(r1) = KeyOf(r2) => r1 = r2
 WellFormed(s) == \A r \in s.store :
